@@ -39,6 +39,7 @@ type (
 		loops         []*loopStmts
 		loopIndex     int
 		tryCatchIndex int
+		finallyDepth  int
 		iotaVal       int
 		sharedExpr    int
 		opts          *CompilerOptions
@@ -87,6 +88,7 @@ type (
 		continues         []int
 		breaks            []int
 		lastTryCatchIndex int
+		finallyDepth      int
 	}
 )
 
@@ -632,7 +634,10 @@ func (c *Compiler) compileModule(
 }
 
 func (c *Compiler) enterLoop() *loopStmts {
-	loop := &loopStmts{lastTryCatchIndex: c.tryCatchIndex}
+	loop := &loopStmts{
+		lastTryCatchIndex: c.tryCatchIndex,
+		finallyDepth:      c.finallyDepth,
+	}
 	c.loops = append(c.loops, loop)
 	c.loopIndex++
 
